@@ -60,8 +60,29 @@ def sympy_to_inline_js(expr: sympy.Expr) -> str:
     return cast(str, jscode(expr, full_prec=False))
 
 
+def _integers_to_floats(expr: sympy.Expr) -> sympy.Expr:
+    """Replace integer addends and integer factors (other than +-1) by floats.
+
+    Rust does not mix integer literals with f64 values (`x + 1`, `2*x`), exponents
+    and signs are left alone (`x.powi(2)`, `-x`).
+    """
+    if not isinstance(expr, sympy.Basic) or expr.is_Atom:
+        return expr
+    args = [_integers_to_floats(cast(sympy.Expr, i)) for i in expr.args]
+    if isinstance(expr, sympy.Pow):
+        args[1] = expr.args[1] if expr.args[1].is_Integer else args[1]  # type: ignore
+    elif isinstance(expr, sympy.Add):
+        args = [sympy.Float(i) if i.is_Integer else i for i in args]
+    elif isinstance(expr, sympy.Mul):
+        args = [sympy.Float(i) if i.is_Integer and abs(i) != 1 else i for i in args]
+    return cast(sympy.Expr, expr.func(*args))
+
+
 def sympy_to_inline_rust(expr: sympy.Expr) -> str:
     """Create rust code from sympy expression."""
+    expr = _integers_to_floats(expr)
+    if getattr(expr, "is_Integer", False):
+        expr = sympy.Float(expr)
     return cast(str, rust_code(expr, full_prec=False))
 
 
